@@ -286,14 +286,46 @@ func c02Errors(x *mc.Exec) {
 	c02RoundTrip(x, c, "C02:errors")
 }
 
+// c02Interleaved: a payload must still be good after OTHER documents have been
+// marshaled (a marshaler that hands out pooled or reused memory breaks this):
+// marshal A, marshal B, marshal A', then unmarshal the retained payloads.
+func c02Interleaved(x *mc.Exec) {
+	mk := func(i int) *DocCase {
+		return c11Base(i, c11Default())
+	}
+	a, b := x.Choose(len(c11BaseNames), "first document"), x.Choose(len(c11BaseNames), "second document")
+	ca, cb := mk(a), mk(b)
+	ref, f := c11Marshal(mk(a))
+	if f != "" {
+		return
+	}
+	pa, fa := c11Marshal(ca)
+	pb, fb := c11Marshal(cb)
+	x.R.Add("transitions", 3)
+	x.R.Mark("nontrivial", mc.Hash("interleaved", a, b))
+	x.Render(fmt.Sprintf("marshal %q, then %q, then read the first payload", c11BaseNames[a], c11BaseNames[b]))
+	if fa != "" || fb != "" || len(pb) == 0 {
+		return
+	}
+	if string(pa) != string(ref) {
+		x.Fail("C02:interleaved:payload-overwritten", "the payload of %q changed after %q was marshaled:\n  was: %.200s\n  now: %.200s", c11BaseNames[a], c11BaseNames[b], ref, pa)
+		return
+	}
+	d, err := j.UnmarshalDocument(pa, ca.Schema)
+	if err != nil || d == nil {
+		x.Fail("C02:interleaved:unreadable", "the payload of %q is rejected after %q was marshaled: %v", c11BaseNames[a], c11BaseNames[b], err)
+	}
+}
+
 func init() {
 	Register(&Prop{
 		ID: "C02",
-		Rule: "Engine A, all choices Full: the complete product 14 primary-data kinds x 5 included lists (ids colliding across types and not, mixed implementations) x 4 metas (nil, {}, scalars, nested/array/null/escapes) x 3 error lists x 4 prefixes x 3 field selections x 2 relationship-data requests; plus every one of the 256 member subsets of one error object, all pairs and triples (with repetition, every order) of 6 representative errors, and errors together with data. Each document is marshaled and unmarshaled against the same schema; oracle written in the harness: kind of primary data, members in order by (type,id,selected values), included as a set keyed by (type,id), meta and error members as canonical JSON. Non-trivial = distinct marshaled payload",
+		Rule: "Engine A, all choices Full: the complete product 14 primary-data kinds x 5 included lists (ids colliding across types and not, mixed implementations) x 4 metas (nil, {}, scalars, nested/array/null/escapes) x 3 error lists x 6 prefixes x 3 field selections x 2 relationship-data requests; plus every one of the 256 member subsets of one error object, all pairs and triples (with repetition, every order) of 6 representative errors, and errors together with data. and every ordered pair of 8 richer documents marshaled one after the other before the first payload is read back. Each document is marshaled and unmarshaled against the same schema; oracle written in the harness: kind of primary data, members in order by (type,id,selected values), included as a set keyed by (type,id), meta and error members as canonical JSON. Non-trivial = distinct marshaled payload",
 		Assumptions: []string{"an Identifier document may come back as a single field-less resource with the same type and id (JSON:API cannot tell them apart); weaker reading chosen deliberately", "empty map == absent for meta / links / source"},
 		Harnesses: []Harness{
 			{Name: "C02/docs", Body: c02Docs},
 			{Name: "C02/errors", Body: c02Errors},
+			{Name: "C02/interleaved", Body: c02Interleaved},
 		},
 	})
 }
